@@ -85,6 +85,9 @@ type World struct {
 
 	// Delay, when set, is called at every decorated call (S2 schedule perturbation)
 	Delay func(kind string)
+	// StoreFault, when set, is asked before every store call of a controller task; a non-nil error is returned
+	// to the caller instead of performing the call (transient store unavailability)
+	StoreFault func(kind string) error
 	// HandlerWatch, when set, interposes on the Watch call of northbound handlers (C08)
 	HandlerWatch WatchHook
 }
@@ -239,6 +242,19 @@ func (inc *Incarnation) gate(kind string, effect bool) {
 	if d := w.Delay; d != nil {
 		d(kind)
 	}
+}
+
+// fault returns an injected transient store error for calls made by controller tasks
+func (inc *Incarnation) fault(kind string) error {
+	f := inc.w.StoreFault
+	if f == nil {
+		return nil
+	}
+	t := currentTaskObj()
+	if t == nil || t.Ctl == "handler" {
+		return nil
+	}
+	return f(kind)
 }
 
 // Kill kills the current incarnation now
